@@ -321,6 +321,7 @@ def evaluate_cases(mod, cases, timeout):
                 findings.append(Finding(kind, c, 'line %d: %s' % (i, d), impl=irs, model=None))
                 findings[-1].line_index = i
                 findings[-1].model = mr
+                k += len(c['lines']) - i - 1   # skip the model replies of the remaining lines of this case (keeps later cases aligned)
                 break
     return findings, stats, impl_replies
 
